@@ -692,6 +692,12 @@ class Interp:
             "itertools.tee": lambda xs, k=2: tuple(iter(list(c_)) for c_ in [list(self.iterate(xs))] * k),
             "types.MethodType": lambda f, obj: self._bind_callable(f, obj),
             "types.MappingProxyType": mapping_proxy,
+            # weak containers: entries live as long as their keys / values do - within one evaluation every object the
+            # analysed code can still reach is alive, so they behave as their strong counterparts
+            "weakref.WeakKeyDictionary": lambda *a, **k: dict(*a, **k),
+            "weakref.WeakValueDictionary": lambda *a, **k: dict(*a, **k),
+            "weakref.WeakSet": lambda xs=(): set(self.dedupe(self.iterate(xs))),
+            "weakref.ref": lambda o, cb=None: raw(lambda: o),
             "types.SimpleNamespace": lambda **k: AObj("SimpleNamespace", **k),
             "collections.ChainMap": chain_map,
             "sys.intern": lambda x: x,
@@ -3532,7 +3538,10 @@ class Interp:
         store[key] = True
         if ci.unit.env:
             return
-        odd = {"Flag", "IntFlag", "IntEnum", "StrEnum", "ReprEnum"} & set(self.pm.base_names(ci))
+        # (IntEnum members are evaluated as the integers they are: arithmetic, comparison, hashing and str() agree with
+        # Python; `.name` / `.value`, calling or iterating the class leave the fragment; repr() and isinstance against the
+        # enum class are the known inexact corners)
+        odd = {"Flag", "IntFlag", "StrEnum", "ReprEnum"} & set(self.pm.base_names(ci))
         if odd:
             # members of these behave as integers / strings / bit sets as well: not modelled, never approximated
             store.pop(key, None)
